@@ -467,3 +467,8 @@ VARIANTS += [
     V("C05", "Final argument translated from the unanalysed annotation", VIS, "return sds_types.FinalType(type_=self.mypy_type_to_abstract_type(mypy_type, unanalyzed_args[0]))", "return sds_types.FinalType(type_=self.mypy_type_to_abstract_type(unanalyzed_args[0]))", "C05.CTOR-TABLE"),
     V("C05", "benign: Final argument translated from the analysed type alone", VIS, "return sds_types.FinalType(type_=self.mypy_type_to_abstract_type(mypy_type, unanalyzed_args[0]))", "return sds_types.FinalType(type_=self.mypy_type_to_abstract_type(mypy_type))", None),
 ]
+VARIANTS += [
+    V("C03", "attributes typed with a type variable skipped", GEN, '                if attribute_type["kind"] == "TypeVarType" and attribute_type["name"] == attribute.name:', '                if attribute_type["kind"] == "TypeVarType":', "C03.COVERAGE"),
+    V("C05", "callable exemption only without annotation (the repair C05.POSITIONS asks for)", VIS, "            and not isinstance(attribute_type, mp_types.CallableType)\n", "            and not (isinstance(attribute_type, mp_types.CallableType) and unanalyzed_type is None)\n", None),
+    V("C05", "property results joined as a tuple (the repair C05.POSITIONS asks for)", GEN, "        result_union = UnionType(types=result_types)\n        types_data = result_union.to_dict()", "        from safeds_stubgen.api_analyzer import TupleType\n        result_union = TupleType(types=result_types) if len(result_types) > 1 else UnionType(types=result_types)\n        types_data = result_union.to_dict()", None),
+]
